@@ -346,21 +346,39 @@ func (u rdUnit) String() string {
 	return fmt.Sprintf("pre=%q hdr=%s hdrErr=%q compressed=%v reads=%v data=%x end=%q intermediate=%v", u.Pre, u.Hdr, u.HdrErr, u.Compressed, u.Reads, u.Data, u.End, u.Interm)
 }
 
+// rdPos is the reader's current source object and the absolute stream offset
+// of that object's first byte; the callbacks look positions up through it, so
+// that the source can be replaced between two messages.
+type rdPos struct {
+	src  *tx.Src
+	base int
+}
+
+func (p *rdPos) abs() int { return p.base + p.src.Pos }
+
 type rdInst struct {
 	r   *wsutil.Reader
-	src *tx.Src
-	ms   *wsflate.MessageState
-	log  *[]string
-	base int // absolute stream offset of src's first byte
+	ps  *rdPos
+	ms  *wsflate.MessageState
+	log *[]string
+}
+
+// swapSource gives the reader another source object holding the rest of the
+// stream from absolute offset at (the exported Source field is the
+// application's to set between messages).
+func (in rdInst) swapSource(wire []byte, at int) {
+	in.ps.src, in.ps.base = tx.NewSrc(wire[at:], nil), at
+	in.r.Source = in.ps.src
 }
 
 func newRd(cfg rdCfg, data []byte, base int) rdInst {
 	src := tx.NewSrc(data, nil)
+	ps := &rdPos{src, base}
 	st := ws.StateServerSide
 	if cfg.Client {
 		st = ws.StateClientSide
 	}
-	in := rdInst{src: src, log: new([]string), base: base}
+	in := rdInst{ps: ps, log: new([]string)}
 	r := &wsutil.Reader{Source: src, State: st, CheckUTF8: cfg.CheckUTF8, SkipHeaderCheck: cfg.SkipCheck}
 	if cfg.Ext {
 		in.ms = new(wsflate.MessageState)
@@ -377,7 +395,7 @@ func newRd(cfg rdCfg, data []byte, base int) rdInst {
 	}
 	if cfg.RejectPos >= 0 {
 		r.Extensions = append(r.Extensions, wsutil.RecvExtensionFunc(func(h ws.Header) (ws.Header, error) {
-			if base+src.Pos == cfg.RejectPos {
+			if ps.abs() == cfg.RejectPos {
 				return h, errExt
 			}
 			return h, nil
@@ -386,7 +404,7 @@ func newRd(cfg rdCfg, data []byte, base int) rdInst {
 	if cfg.OnCont {
 		log := in.log
 		r.OnContinuation = func(h ws.Header, rd io.Reader) error {
-			at := base + src.Pos
+			at := ps.abs()
 			*log = append(*log, fmt.Sprintf("cont fin=%v len=%d at=%d", h.Fin, h.Length, at))
 			if at != cfg.FailPos {
 				return nil
@@ -499,7 +517,7 @@ func (in rdInst) consume(m rdMode, end int) rdUnit {
 		u.End = "discard:" + errName(err)
 		u.Stop = err != nil
 	}
-	if u.Stop && u.End == "invalid utf8" && in.base+in.src.Pos == end {
+	if u.Stop && u.End == "invalid utf8" && in.ps.abs() == end {
 		// A text message found invalid at its very end: everything of it has
 		// been consumed and the source stands at the next frame. The application
 		// goes on with NextFrame (a new message starts with a new decoder).
@@ -629,6 +647,10 @@ func TestReaderConsecutiveMessages(t *testing.T) {
 			}
 			modes[i] = m
 		}
+		swaps := make([]bool, nunits)
+		for i := range swaps {
+			swaps[i] = rapid.IntRange(0, 3).Draw(t, "swap-source") == 0
+		}
 		hx.Eval()
 
 		a := newRd(cfg, wire, 0)
@@ -654,7 +676,13 @@ func TestReaderConsecutiveMessages(t *testing.T) {
 					hx.Class("reader/oncontinuation-error-then-discard")
 				}
 			} else {
-				pos = append(pos, a.src.Pos)
+				pos = append(pos, a.ps.abs())
+				if swaps[i] && i+1 < nunits {
+					// the application hands the reader a different source object
+					// for the rest of the stream
+					a.swapSource(wire, a.ps.abs())
+					hx.Class("reader/source-replaced-between-messages")
+				}
 			}
 		}
 		desc := func() map[string]interface{} {
